@@ -124,12 +124,41 @@ class NetlistSimplifyMixin:
 
         return okay
 
+    def _series_span_is_private(self, aset):
+        """Return True if every node joining two components of the
+        series set `aset` is connected to nothing else and is not
+        ground.  Combining components across a node that is the
+        reference node, or that another component is connected to
+        (for example, an open-circuit or port component or the
+        control nodes of a controlled source), changes the potential
+        of that node."""
+
+        node_map = self.node_map
+        count = {}
+        for name in aset:
+            for node_name in self.elements[name].node_names[0:2]:
+                key = node_map[node_name]
+                count[key] = count.get(key, 0) + 1
+
+        for key, num in count.items():
+            if num < 2:
+                continue
+            for node_name in self.equipotential_nodes[key]:
+                if node_name.startswith('0'):
+                    return False
+                for cpt in self.nodes[node_name].connected:
+                    if cpt.name not in aset and not cpt.is_wire:
+                        return False
+        return True
+
     def _simplify_combine_series(self, skip, explain=False):
 
         net = self.copy()
         changed = False
 
         for aset in net.in_series():
+            if not self._series_span_is_private(aset):
+                continue
             aset -= skip
             subsets = net._find_combine_subsets(aset)
             for k, subset in subsets.items():
